@@ -191,6 +191,24 @@ func (ex *Exec) bigExp(x, y BigVal, mv Value) BigVal {
 			// 0^y mod m = 0 for y>0, 1 for y == 0
 			return BigVal{I: smt.Ite(smt.Eq(y.I, smt.I64(0)), smt.I64(1), smt.I64(0))}
 		}
+		if ex.modKind(m.I) == "" && x.G == nil && yc && yv.IsInt64() && yv.Int64() >= -8 && yv.Int64() <= 8 &&
+			m.I.Hi != nil && m.I.Hi.BitLen() <= 24 && m.I.Lo != nil && m.I.Lo.Sign() > 0 {
+			// small integers: exact modular arithmetic instead of the algebraic group model
+			base := BigVal{I: smt.Mod(x.I, m.I)}
+			n := yv.Int64()
+			if n < 0 {
+				inv, ok := ex.bigModInverse(base, m)
+				if !ok {
+					return bigConst(1) // math/big leaves z unchanged and returns nil; callers check ModInverse first
+				}
+				base, n = inv, -n
+			}
+			r := smt.Mod(smt.I64(1), m.I)
+			for i := int64(0); i < n; i++ {
+				r = smt.Mod(smt.Mul(r, base.I), m.I)
+			}
+			return BigVal{I: r}
+		}
 		if ex.modKind(m.I) == "" {
 			ex.modKinds[m.I.ID] = &ModInfo{Kind: "group", Name: "mod"}
 		}
@@ -224,6 +242,9 @@ func (ex *Exec) bigModInverse(g, n BigVal) (BigVal, bool) {
 			return BigVal{}, false
 		}
 		return BigVal{I: smt.IntC(r)}, true
+	}
+	if gc && gv.Sign() == 0 && g.G == nil {
+		return BigVal{}, false // zero has no inverse (for |n| > 1)
 	}
 	if n.E != nil && isRealZero(n.E) || ex.modKind(n.I) == "order" {
 		r := ex.freshInt("inv", big.NewInt(1), n.I.Hi)
@@ -299,6 +320,13 @@ func (ex *Exec) bigGCD(a, b BigVal, wantX, wantY bool) (g, x, y BigVal) {
 	ex.assume(smt.Eq(smt.Abs(b.I), smt.Mul(gi, kb)))
 	ex.assume(smt.Eq(smt.Add(smt.Mul(xi, a.I), smt.Mul(yi, b.I)), gi))
 	ex.assume(smt.Eq(smt.Eq(gi, smt.I64(0)), smt.And(smt.Eq(a.I, smt.I64(0)), smt.Eq(b.I, smt.I64(0)))))
+	// the cofactors of the extended Euclidean algorithm are small: |x| <= max(1, |b|/(2g)), |y| <= max(1, |a|/(2g))
+	two := smt.I64(2)
+	g2 := smt.Mul(two, gi)
+	maxT := func(u, v *smt.Term) *smt.Term { return smt.Ite(smt.Ge(u, v), u, v) }
+	ex.assume(smt.Le(smt.Mul(g2, smt.Abs(xi)), maxT(g2, smt.Abs(b.I))))
+	ex.assume(smt.Le(smt.Mul(g2, smt.Abs(yi)), maxT(g2, smt.Abs(a.I))))
+	ex.stubs["math/big GCD cofactors satisfy the extended-Euclid bounds |x| <= max(1,|b|/2g), |y| <= max(1,|a|/2g)"] = true
 	return BigVal{I: gi}, BigVal{I: xi}, BigVal{I: yi}
 }
 
